@@ -668,11 +668,34 @@ fn negative_int_to_asg_type(n: synast::IntNumber) -> asg::IntLiteral {
     asg::IntLiteral::new(num, false) // `false` means negative
 }
 
+// True if `expr` is an integer literal, possibly with a unit and possibly negated, such that
+// `value_u128` is `None`.
+fn is_unrepresentable_int_literal(expr: &synast::Expr) -> bool {
+    let operand = match expr {
+        synast::Expr::PrefixExpr(prefix_expr) => prefix_expr.expr(),
+        _ => Some(expr.clone()),
+    };
+    let literal = match operand {
+        Some(synast::Expr::Literal(literal)) => Some(literal),
+        Some(synast::Expr::TimingLiteral(timing_literal)) => timing_literal.literal(),
+        _ => None,
+    };
+    matches!(
+        literal.map(|literal| literal.kind()),
+        Some(synast::LiteralKind::IntNumber(int_num)) if int_num.value_u128().is_none()
+    )
+}
+
 fn expr_to_asg_texpr(
     expr_maybe: Option<synast::Expr>,
     context: &mut Context,
 ) -> Option<asg::TExpr> {
     let expr = expr_maybe?;
+    // An integer literal whose value cannot be computed (it does not fit in 128 bits, or has
+    // digits that do not belong to its radix) cannot be represented in the ASG.
+    if is_unrepresentable_int_literal(&expr) {
+        return not_impl_expr!(context, expr);
+    }
     match expr {
         // FIXME: Ugh. could clean up logic here
         // It is convenient to rewrite literals wrapped in unary minus as literals
